@@ -45,7 +45,7 @@ PROPS = {
              "negative and over-capacity read sizes; 8% of histories may contain rewinding discards (the known finding) and 8% are directed: writes of more than half the ring each followed by a read of everything, "
              "reads past a stride boundary, a discard back onto the boundary, then a write of the true room plus 1..5 bytes and a read of everything — after a "
              "coherent backwards move (fewer than cap bytes re-exposed, theorem discard_spec_coherent) the oracle keeps judging from the new position, so a "
-             "different failure later in the history is still reported under its own signature; a panic inside an "
+             "different failure later in the history is still reported under its own signature; in addition 3 (quick) / 10 per job (thorough) LARGE rings of 4..9 MB (production Abaco rings are 256 MB) with reader backlogs beyond 4 MiB and chunk sizes that divide no power of two: bytes come from a fixed recurrence, writes are reported as start/length/accepted and reads as length + 32-bit polynomial hash, the oracle regenerates the accepted stream and judges FIFO content by hash and lengths by the length-level model `L.*` (theorems Props/C18Len: the projection of the full model); a panic inside an "
              "operation is an observed output; after every discard BytesReadable tells where the real read position landed. Chunk size / stride 0 "
              "is excluded (the Go code divides by zero: outside the statement's domain). Non-trivial = the logical stream wrapped around the "
              "end of the buffer at least once; distinct by input line.",
